@@ -162,6 +162,13 @@ func oracle(c *Case) (facts, error) {
 	var f facts
 	dir := fix.CaseDir()
 	defer os.RemoveAll(dir)
+	// the case runs inside its own directory: data sources of the kind
+	// "relative name" name files relative to it
+	if old, err := os.Getwd(); err == nil && os.Chdir(dir) == nil {
+		defer os.Chdir(old)
+	} else {
+		return f, fmt.Errorf("INFRA: cannot change the working directory")
+	}
 	paths := make([]string, len(c.Files))
 	datas := make([]*model.Data, len(c.Files))
 	for i := range c.Files {
@@ -198,6 +205,21 @@ func oracle(c *Case) (facts, error) {
 	fresh := map[int]bool{}         // slot not yet used for a query
 	dsnOf := func(file, opt, via int) string {
 		p := paths[file]
+		if via == fix.ViaRelCwd && filepath.Dir(p) == dir {
+			// a relative name with characters that mean themselves in a path
+			// ('+' is a space only in a query string): a link beside the file
+			rel := "rel+cwd=1,2@" + filepath.Base(p)
+			if _, err := os.Lstat(filepath.Join(dir, rel)); err != nil {
+				if err := os.Symlink(filepath.Base(p), filepath.Join(dir, rel)); err != nil {
+					panic("INFRA: " + err.Error())
+				}
+			}
+			s := "file:" + rel
+			if optStrings[opt] != "" {
+				s += "?" + optStrings[opt]
+			}
+			return s
+		}
 		if via != fix.ViaPlain {
 			alias, lexical, err := fix.Alias(p, via)
 			if err != nil {
